@@ -46,6 +46,30 @@ def x_template(line):
     return None
 
 
+# Behaviour-preserving rewrites of the anchored code that must NOT raise an alarm (patches: corpus/C09/negative_controls/*.diff,
+# documentation only; each was built as mutated object files in scratch, linked into a scratch harness and run through the full
+# correspondence flow at quick tier: 0 mismatches, no spec failure outside the two recorded classes).
+NEGATIVE_CONTROLS = [
+    "nc1_internalresolve_refactor: InternalResolveMacros with renamed locals, the nested resolution extracted into a helper lambda, "
+    "the 'only macro' test computed up front, the duplicated array check merged",
+    "nc2_message_texts: other wording of all four exception texts and of the log lines in macroprocessor.cpp, of the "
+    "'<Terminated with exit code ...>' marker (pluginchecktask.cpp) and of '<Timeout exceeded.>' / '<Terminated by signal ...>' "
+    "(process.cpp) — ALARMED FIRST (error kind classified by message text; marker text transcribed in model and spec; timeout clause "
+    "looked for the marker): now failure is compared against failure only, the marker is an oracle input read from the implementation, "
+    "the timeout clause demands UNKNOWN + child gone",
+    "nc3_reverse_iteration_extra_fields: ResolveArguments snapshots the dictionary and processes it back to front, CommandArgument "
+    "carries two bookkeeping fields, std::sort with a lambda comparator — ALARMED FIRST (which of two failing arguments throws first "
+    "changed the error kind): fixed by the same loosening; the order inside equal-`order` classes was already compared modulo permutation",
+    "nc4_guard_spellings: AddArgumentHelper, the command wrapping and the missing/required guard of ResolveArguments as nested ifs / "
+    "early returns / if-else instead of continue; ExitStatusToState as range tests; ParseCheckOutput with a flag and continue",
+    "nc5_moved_definitions_renamed_statics: EscapeMacroShellArg and ProcessFinishedHandler (both reached through VH_ROB) moved within "
+    "their files with added comments/braces/renamed locals; file-statics GetDefaultResolvers/l_EnvResolver renamed",
+    "nc6_equivalent_escape_and_prepare: Utility::EscapeShellArg rewritten over std::string with reserve/append/continue; "
+    "Process::PrepareCommand with emplace_back",
+    "(run by the coordinator) std::stable_sort instead of std::sort in ResolveArguments",
+]
+
+
 class C09(StdCheck):
     prop = "C09"
     eval_key = "steps"
@@ -73,7 +97,9 @@ class C09(StdCheck):
                   "shell operators, UTF-8) and real process spawns incl. /bin/sh and the timeout kill; the specification predicates are evaluated "
                   "on the implementation's own observations")
     level_note = ("Trusted: Lean kernel (+ propext, Classical.choice, Quot.sound), sampled correspondence, harness/driver. Parameter, validated by real "
-                  "spawns only: /bin/sh word splitting (model restricted to unquoted text, backslash escapes, single and double quotes). Not "
+                  "spawns only: /bin/sh word splitting (model restricted to unquoted text, backslash escapes, single and double quotes). Not compared "
+                  "(not part of the property): which exception a failing resolution throws and every message/marker wording (the marker "
+                  "appended for exit codes above 3 is an oracle input read from the implementation). Not "
                   "modelled: numbers/booleans/dictionaries/functions as macro values, nested arrays, the default `icinga`/`env` resolvers, set_if "
                   "values beyond true/false/integers, std::sort instability beyond 16 equal-order arguments (compared modulo permutation), process "
                   "creation and the timeout kill (exercised only).")
